@@ -87,7 +87,11 @@ def replay(prop, path, mod):
     sys.stdout.write(err[-int(os.environ.get("VERIF_REPLAY_TAIL", "8000")):])
     keys = [ln.split()[2] for ln in out.splitlines() if ln.startswith("V ")]
     keys += vdriver.sanitizer_keys(err)
-    if doc["key"] in keys:
+    want = doc["key"]
+    for pfx in ("cbsetsrv:", "sim:"):   # stage tags added by a check to the keys of one sub-workload
+        if want.startswith(pfx):
+            want = want[len(pfx):]
+    if want in keys or doc["key"] in keys:
         print("VIOLATION property=%s replay=%s key=%s (reproduced)" % (prop, path, doc["key"]))
         return 1
     print("replay did not reproduce key %s (saw %s)" % (doc["key"], keys))
